@@ -371,7 +371,7 @@ class IkeSa(object):
         # is a retransmitted IKE_SA_INIT request, which gets the stored IKE_SA_INIT response again
         if self.peer_crypto is not None and not message.is_protected:
             if (message.is_request and message.exchange_type == Message.Exchange.IKE_SA_INIT
-                    and message.message_id == 0 and self.peer_msg_id == 1):
+                    and message.message_id == 0 and self.state == IkeSa.State.INIT_RES_SENT):
                 self.log_warning('Retransmission detected. Sending last sent message')
                 return self.last_sent_response_data
             self.log_error('Received an unprotected message for an IKE_SA that has keys. Ignoring')
